@@ -2,7 +2,8 @@
 (* C15 judge (property level).  One alphabet for generated ids (client / user / mapping /     *)
 (* node_ ids of idgen) and for node ids of the allocator; ids are strings.  Per trace:        *)
 (*   Cfg    [d, scope, taken]      d = detail prefix naming the configuration                 *)
-(*                                  ("gen:<store>:<layout>:<api>:<kind>" | "node:<wiring>"),   *)
+(*                                  ("gen:<store>:<layout>:<api>:<kind>[:ttl0]" |               *)
+(*                                   "node:<wiring>" | "uuid:<api>:<kind>"),                   *)
 (*                                  taken = ids that exist before the first call (colliding    *)
 (*                                  pre-existing ids / slots of foreign live nodes),           *)
 (*                                  scope = FALSE: cross-instance uniqueness is not demanded   *)
